@@ -125,7 +125,7 @@ func New(prop, tier, level string) *Run {
 		distinct: map[string]struct{}{}, extra: map[string]interface{}{}, counters: map[string]int{},
 		seenSig: map[string]int{}, knownFired: map[string]string{}, maxSamples: 8, floor: 2}
 	var ff findingsFile
-	if b, err := os.ReadFile(filepath.Join(Root(), "known_findings.json")); err == nil {
+	if b, err := os.ReadFile(filepath.Join(SrcDir(), "known_findings.json")); err == nil {
 		if err := json.Unmarshal(b, &ff); err != nil {
 			fmt.Fprintf(os.Stderr, "known_findings.json unreadable: %v\n", err)
 			os.Exit(2)
